@@ -1,0 +1,37 @@
+//go:build verif
+
+package pool
+
+import "github.com/go-netty/go-netty/utils/pool/internal/pmath"
+
+// Verification-only accessors (build tag `verif`): expose the internal
+// size-class arithmetic so that the translated model can be compared with it.
+
+func verifCatch(f func() int) (r int, panicked bool) {
+	defer func() {
+		if recover() != nil {
+			panicked = true
+		}
+	}()
+	return f(), false
+}
+
+// VerifCeil is pmath.CeilToPowerOfTwo with the panic reported as a flag.
+func VerifCeil(n int) (int, bool) { return verifCatch(func() int { return pmath.CeilToPowerOfTwo(n) }) }
+
+// VerifFloor is pmath.FloorToPowerOfTwo.
+func VerifFloor(n int) int { return pmath.FloorToPowerOfTwo(n) }
+
+// VerifIsPow2 is pmath.IsPowerOfTwo.
+func VerifIsPow2(n int) bool { return pmath.IsPowerOfTwo(n) }
+
+// VerifGeom reports the geometry New(max) computes: shard count and step.
+func VerifGeom(max int) (shards, step int, panicked bool) {
+	defer func() {
+		if recover() != nil {
+			panicked = true
+		}
+	}()
+	p := New[*int](max)
+	return len(p.pool), p.stepSize, false
+}
